@@ -593,7 +593,11 @@ def qualifier_first(F, res):
     resolver (whether the current module may serve as a fallback is S15's business)."""
     f = F.fn("ide::def::semantics::classify_type_name")
     ok = False
-    for u in [f] + [F.fns[c] for c in F.closures_of(f.path)]:
+    # the qualified lookup may live in a private helper of the semantics module (`resolve_qualified_type(sema, name, &module)`)
+    from lib import inline as _IL
+    fi = _IL.inlined(F, f, want=lambda p_: p_.startswith("ide::def::semantics::") and "{closure" not in p_ and p_ != f.path and
+                     p_.rsplit("::", 1)[-1] not in ("classify_node", "classify_name", "classify_name_ref") and "::Semantics::" not in p_, depth=1)
+    for u in [fi] + [F.fns[c] for c in F.closures_of(f.path)]:
         d = FL.Defs(u)
         mods = [(b, t) for b, t in u.calls() if FL.short(callee(t) or callee_def(t) or "") == "Resolver::resolve_module"]
         for b, t in mods:
